@@ -195,7 +195,16 @@ func (multi *MultiEpoch) handleGetSignaturesForAddress(ctx context.Context, conn
 	// The response is an array of objects: [{signature: string}]
 	response := make([]map[string]any, countTransactions(foundTransactions))
 	numBefore := 0
-	for ei := range foundTransactions {
+	// the response lists the newest epoch first (ranging over the map directly would
+	// put the per-epoch groups in random order):
+	epochsWithResults := make([]uint64, 0, len(foundTransactions))
+	for epochNum := range foundTransactions {
+		epochsWithResults = append(epochsWithResults, epochNum)
+	}
+	sort.Slice(epochsWithResults, func(i, j int) bool {
+		return epochsWithResults[i] > epochsWithResults[j]
+	})
+	for _, ei := range epochsWithResults {
 		epoch := ei
 		ser, err := multi.GetEpoch(epoch)
 		if err != nil {
